@@ -248,7 +248,9 @@ func (r *ClientPeerRef) Send(ctx context.Context, msg []byte) (_ *signaling_rpc.
 
 			// Stream with remote was re-opened.
 			if sessionSeqno == nil || *sessionSeqno != *tkr.open {
-				txed = false
+				// If tkr.out is still our message the main routine re-transmits
+				// it in the new session: keep waiting for it to be acked.
+				txed = tkr.out != nil && tkr.out.Seqno == seqno
 				sessionSeqno = tkr.open
 			}
 
